@@ -167,6 +167,13 @@ def run(c):
         k = rng.rng(1, 40); r = rng.rng(3, 30); n1 = rng.rng(3, min(r, 7)); L = rng.choice([1, 3, 4, 8, 9, 17])
         mode = rng.below(8)
         reqs.append("E 3 %d %d %d %d %d %d %d" % (k, r, L, n1, rng.rng(1, 2 ** 31 - 2), rng.below(10 ** 9), mode)); meta.append((3, 0, k, k + r, L, mode))
+    # symbol lengths at and above 2^16 (accepted: the length is a UINT32; seed C06g kept it in a UINT16 local)
+    for L in ([65536, 65537, 70001] if q else [65535, 65536, 65537, 70001, 131073]):
+        mode = rng.below(8)
+        reqs.append("E 3 %d %d %d %d %d %d %d" % (3, 3, L, 3, rng.rng(1, 2 ** 31 - 2), rng.below(10 ** 9), mode)); meta.append((3, 0, 3, 6, L, mode))
+        seed = rng.below(10 ** 9)
+        for codec, m in ((1, 8), (2, 8), (2, 4)):
+            reqs.append("E %d 2 2 %d %d 0 %d %d" % (codec, L, m, seed, rng.below(16))); meta.append((codec, m, 2, 4, L, int(reqs[-1].split()[-1])))
     exe = vlib.build_c(c.snap, "drv_enc", "drv_enc.c")
     ans, crashes = vlib.run_driver(exe, reqs, prefix="R")
     for kx, se in crashes[:6]:
@@ -202,6 +209,12 @@ def run(c):
             if key not in gens:
                 gens[key] = canonical_generator(F, k, n)
             want = rs_expected(F, gens[key], sym[:k], L)
+            if L > 5000:
+                # too long for the extracted model (quadratic in the length): the python canonical generator decides alone here
+                if [list(v) for v in want] != sym[k:]:
+                    c.violation("codec %d m=%d k=%d n=%d L=%d mode=%d: repair symbols differ from the canonical generator's" % (codec, m, k, n, L, mode), "rs-not-canonical",
+                                {"stream": "enc", "request": reqs[i]})
+                continue
             rs_model.append((i, "G %d %d %d %d %s" % (m, k, n, L, ".".join(Y[:k])), ".".join(Y[k:]), ".".join("".join("%02x" % b for b in v) for v in want)))
         else:
             r = n - k
